@@ -391,6 +391,12 @@ package kcache
   at close(s.readych) assert [own-cache-holds-filtered-parent-content] (or synced (and (not cacheTouched) (rejectsAll {s.filter})))
   at close(s.outch) assert [after-the-loop] (= lc 1)
 
+  ghost pendingEvt : Bool := false
+  ghost pendingRefilter : Bool := false
+  at recv(Events) set pendingEvt := (and $ok {ready})
+  at call(update) set pendingEvt := false
+  at call(FiltersEqual).after set pendingRefilter := (not $result)
+  at call(refilter) set pendingRefilter := false
   loop 1 inv [I1-not-ready-while-waiting-for-parent] (=> (not (= {preadych} vnil)) (not {ready}))
   loop 1 inv [I1b-preadych] (and (or (= {preadych} vnil) (= {preadych} (sub-ready {s.parent}))) (= parentReadySeen (= {preadych} vnil)))
   loop 1 inv [I2-ready-iff-readych-closed] (= {ready} {closed(s.readych)})
@@ -401,6 +407,7 @@ package kcache
   loop 1 inv [I6-pending-implies-filter-supplied] (=> {pending} filterSupplied)
   loop 1 inv [I7-lifecycle-running] (and (= lc 0) (not {closed(s.outch)}))
   at go() assert [opt:handlers-run-serially-on-the-actor-goroutine] false
+  loop 1 inv [every-parent-event-after-ready-and-every-new-filter-is-applied] (and (not pendingEvt) (not pendingRefilter))
 @*/
 
 /*@ nonnil-global kcache.errInvalidType kcache.ErrNotRunning
@@ -531,12 +538,19 @@ package kcache
   at recv(Done) set njoin := (+ njoin 1)
   at call(ShutdownCompleted) assert [shutdown-initiated-and-children-joined] (and (= lc 1) (>= njoin 3))
 
+  ghost pendingList : Bool := false
+  ghost pendingEvt : Bool := false
+  at recv(Result) set pendingList := (= (|kcache.listResult.err| $val) vnil)
+  at call(sync) set pendingList := false
+  at recv(events) set pendingEvt := true
+  at call(update) set pendingEvt := false
   loop 1 inv [ready-iff-initialized] (= {initialized} {closed(c.readych)})
   loop 1 inv [nothing-published-before-ready] (=> (not {initialized}) (= ndist 0))
   loop 1 inv [reset-only-after-ready] (=> resetCalled {initialized})
   loop 1 inv [running] (and (= lc 0) (= njoin 0))
   loop 1 inv [list-failures-are-fatal] (not failure)
   at go() assert [opt:handlers-run-serially-on-the-actor-goroutine] false
+  loop 1 inv [every-completed-list-and-every-watch-event-is-applied] (and (not pendingList) (not pendingEvt))
 @*/
 
 /*@ neverclosed kcache._subscription.inch
@@ -1177,9 +1191,13 @@ package kcache
   at call(ShutdownInitiated) set lc := 1
   at recv(Done) set parentDone := true
   at call(ShutdownCompleted) assert [all-subscriptions-gone-and-parent-done-before-completing] (and (= lc 1) parentDone)
+  ghost pendingEvt : Bool := false
+  at recv(Events) set pendingEvt := $ok
+  at call(distributeEvent) set pendingEvt := false
   loop 1 inv [running] (and (= lc 0) (not (select {dom(s.subscriptions)} vnil)))
   loop 2 inv [draining] (= lc 1)
   at go() assert [opt:handlers-run-serially-on-the-actor-goroutine] false
+  loop 1 inv [every-parent-event-is-distributed] (not pendingEvt)
 @*/
 
 /*@ func (*kcache.publisher).Subscribe
